@@ -79,7 +79,33 @@ def _model(draw):
     if draw(st.integers(0, 9)) == 0:
         unt = draw(st.sampled_from(["untranslatable_loop", "untranslatable_exp", "untranslatable_aug"]))
     no_rxn = draw(st.integers(0, 11)) == 0 and unt is None
-    return {"spec": spec, "state": state, "time": t, "free": free, "untranslatable": unt, "no_reactions": no_rxn}
+    rename = None
+    if unt is None and not no_rxn and draw(st.integers(0, 7)) == 0:
+        # a component whose name means something in a target language (or is no identifier at all)
+        cands = [n for n in plain if n not in free] + var_names(spec)
+        rename = [draw(st.sampled_from(cands)), draw(st.sampled_from(SPECIAL_NAMES))]
+    return {"spec": spec, "state": state, "time": t, "free": free, "untranslatable": unt, "no_reactions": no_rxn, "rename": rename}
+
+
+SPECIAL_NAMES = ["lambda", "in", "is", "class", "def", "None", "as", "type", "fn", "let", "match", "self", "mut", "E", "PI", "var", "function", "new", "variables", "Math", "math", "return", "if", "x y", "k-1", "2x"]
+# where each of them cannot be used as it is (found by probing every name against every generator)
+NAME_BREAKS = {
+    "py": {"lambda", "in", "is", "class", "def", "None", "as", "return", "if", "x y", "k-1", "2x", "math"},
+    "ts": {"in", "class", "let", "var", "function", "new", "variables", "Math", "return", "if", "x y", "k-1", "2x"},
+    "rs": {"in", "type", "fn", "let", "match", "self", "mut", "as", "E", "PI", "None", "return", "if", "x y", "k-1", "2x"},
+    "jl": set(SPECIAL_NAMES),
+}
+
+
+def _rename(obj, old: str, new: str):
+    """Rename a component everywhere it is named in a spec / state (keys and string values)."""
+    if isinstance(obj, str):
+        return new if obj == old else obj
+    if isinstance(obj, list):
+        return [_rename(x, old, new) for x in obj]
+    if isinstance(obj, dict):
+        return {(new if k == old else k): (v if k in ("fn", "name", "kind", "module") else _rename(v, old, new)) for k, v in obj.items()}
+    return obj
 
 
 @st.composite
@@ -151,6 +177,12 @@ def examine(case: dict, ctx) -> Outcome:
     keys = []
     for mi, mc in enumerate(case["models"]):
         spec = _prep(mc)
+        special = None
+        if mc.get("rename"):
+            old_, special = mc["rename"]
+            spec = {"decls": _rename(spec["decls"], old_, special)}
+            mc = {**mc, "state": _rename(mc["state"], old_, special)}
+            out.classes.append("name_special_in_a_target_language")
         vn = var_names(spec)
         feats = gm.features(spec) | gs.extra_features(spec)
         if mc["free"]:
@@ -192,7 +224,7 @@ def examine(case: dict, ctx) -> Outcome:
             keys.append(gm.structure_key(spec))
         if mc.get("no_reactions"):
             out.classes.append("no_reactions_at_all")
-        rec = {"mi": mi, "vn": vn, "want": want, "root": root, "no_rxn": bool(mc.get("no_reactions")), "free": mc["free"], "unt": mc["untranslatable"], "t": mc["time"], "y": y, "free_vals": free_vals, "src": {}}
+        rec = {"special": special, "mi": mi, "vn": vn, "want": want, "root": root, "no_rxn": bool(mc.get("no_reactions")), "free": mc["free"], "unt": mc["untranslatable"], "t": mc["time"], "y": y, "free_vals": free_vals, "src": {}}
         for tgt, g in gens.items():
             try:
                 src = g(m, free_parameters=mc["free"] or None)
@@ -205,6 +237,9 @@ def examine(case: dict, ctx) -> Outcome:
                     out.bad(f"{tgt}:emits-code-for-untranslatable-function:{mc['untranslatable']}", code=src[:300])
                 continue
             if src is None:
+                if special is not None and special in NAME_BREAKS[tgt]:
+                    out.bad(f"{tgt}:name-not-usable-in-target-language:generation-raises", name=special, error=rec["gen_error"][tgt])
+                    continue
                 out.bad(f"{tgt}:generation-raises:{rec['gen_error'][tgt].split(':')[0]}", error=rec["gen_error"][tgt], spec=spec)
                 continue
             rec["src"][tgt] = src
@@ -232,6 +267,9 @@ def examine(case: dict, ctx) -> Outcome:
         out.classes.append(f"executed:{tgt}")
         if r.get("stage") == "harness":
             raise HarnessError(f"{tgt} harness failure: {r.get('error')}")
+        if not r["ok"] and rec.get("special") is not None and rec["special"] in NAME_BREAKS[tgt]:
+            out.bad(f"{tgt}:name-not-usable-in-target-language:{r['stage']}", name=rec["special"], error=r.get("error", "")[:200], code=rec["src"][tgt][:400])
+            continue
         if not r["ok"]:
             err = r.get("error", "")
             sym = _symptom(tgt, r["stage"], err, rec)
@@ -257,7 +295,7 @@ def examine(case: dict, ctx) -> Outcome:
 
 def floors(ctx) -> list[str]:
     c = []
-    for k in ["executed:py", "executed:ts", "executed:rs", "executed:jl", "feat:one_variable", "feat:untouched_variable", "feat:derived_declared_out_of_order", "feat:computed_coefficient", "feat:conditional_rate_law", "untranslatable"]:
+    for k in ["executed:py", "executed:ts", "executed:rs", "executed:jl", "feat:one_variable", "feat:untouched_variable", "feat:derived_declared_out_of_order", "feat:computed_coefficient", "feat:conditional_rate_law", "untranslatable", "name_special_in_a_target_language"]:
         if ctx.classes.get(k, 0) < 3:
             c.append(f"class {k} only {ctx.classes.get(k, 0)}")
     return c
